@@ -1,6 +1,7 @@
 package main
 
 import (
+	"fmt"
 	"go/token"
 	"go/types"
 	"strings"
@@ -1846,4 +1847,408 @@ func reachPhiAware(f *ssa.Function, start *ssa.BasicBlock, to func(ssa.Instructi
 		}
 	}
 	return nil, nil
+}
+
+// clauseUpdateKeepsRemoteMark: the remote mark of a snapshot is owned by the snapshotter; a label update coming from the
+// client must not remove (or forge) it, otherwise Mounts stops checking the layer and Close stops unmounting it.
+func clauseUpdateKeepsRemoteMark(c *Ctx, id string) {
+	const sp = "snapshot"
+	c.clause(id, "T1+T9", "snapshotter.Update re-asserts the stored remote mark on the labels it hands to storage.UpdateInfo (read with storage.GetInfo in the same transaction)", 1)
+	f := c.mustFn(sp, "(*snapshotter).Update")
+	if f == nil {
+		return
+	}
+	rl := c.constVal(sp, "remoteLabel")
+	ups := callsIn(f, func(id string, _ ssa.CallInstruction) bool { return strings.HasSuffix(id, "snapshots/storage.UpdateInfo") })
+	gets := callsIn(f, func(id string, _ ssa.CallInstruction) bool { return strings.HasSuffix(id, "snapshots/storage.GetInfo") })
+	if len(ups) == 0 {
+		c.unk(c.fnKey(f)+":update", f.Pos(), "Update no longer goes through storage.UpdateInfo")
+		return
+	}
+	good := len(gets) > 0 && rl != ""
+	if good {
+		set, del := false, false
+		eachInstr(f, func(i ssa.Instruction) {
+			switch x := i.(type) {
+			case *ssa.MapUpdate:
+				if s, ok := constString(x.Key); ok && s == rl && dominatesInstr(gets[0], x) {
+					// value read from the stored labels
+					for _, v := range append([]ssa.Value{x.Value}, reachingVals(x.Value)...) {
+						v = stripConv(v)
+						if ex, ok := v.(*ssa.Extract); ok {
+							v = ex.Tuple
+						}
+						if lk, ok := v.(*ssa.Lookup); ok {
+							if ks, ok := constString(lk.Index); ok && ks == rl {
+								set = true
+							}
+						}
+					}
+				}
+			case *ssa.Call:
+				if b, ok := x.Call.Value.(*ssa.Builtin); ok && b.Name() == "delete" {
+					if s, ok := constString(x.Call.Args[1]); ok && s == rl {
+						del = true
+					}
+				}
+			}
+		})
+		good = set && del
+		for _, u := range ups {
+			if !dominatesInstr(gets[0], u) {
+				good = false
+			}
+		}
+		// the map that carries the re-asserted mark is the one handed to UpdateInfo
+		handed := false
+		eachInstr(f, func(i ssa.Instruction) {
+			st, ok := i.(*ssa.Store)
+			if !ok {
+				return
+			}
+			fa, ok := st.Addr.(*ssa.FieldAddr)
+			if !ok || fieldName(fa) != "Labels" || !dominatesInstr(st, ups[0]) {
+				return
+			}
+			eachInstr(f, func(j ssa.Instruction) {
+				if mu, ok := j.(*ssa.MapUpdate); ok {
+					if ks, ok := constString(mu.Key); ok && ks == rl && (stripConv(mu.Map) == stripConv(st.Val) || sameValue(mu.Map, st.Val)) {
+						handed = true
+					}
+				}
+			})
+		})
+		good = good && handed
+	}
+	c.verdict(c.fnKey(f)+":remote-mark-preserved", ups[0].Pos(), good, "stored remote mark copied onto (or removed from) the requested labels before the update", "Update hands the client's labels to storage.UpdateInfo unchanged: an update without field paths drops the remote mark, after which mounts are handed out without the availability check and Close leaves the backend mount")
+}
+
+// clauseKnownMountIsLive: the fuse manager skips a Mount request for a mountpoint it already knows only after the mount
+// table confirmed that something is mounted there (its table can be stale: the restoring snapshotter force-unmounts).
+func clauseKnownMountIsLive(c *Ctx, id string) {
+	const fp = "fusemanager"
+	c.clause(id, "T1", "(*Server).mount answers 'already mounted' for a mountpoint found in fsMap only after consulting the mount table", 1)
+	f := c.mustFn(fp, "(*Server).mount")
+	if f == nil {
+		return
+	}
+	loads := callsIn(f, idIs("sync.(*Map).Load"))
+	if len(loads) == 0 {
+		c.unk(c.fnKey(f)+":known-mount", f.Pos(), "mount no longer consults fsMap")
+		return
+	}
+	tables := callsIn(f, func(id string, _ ssa.CallInstruction) bool {
+		return strings.Contains(id, "moby/sys/mountinfo.") && (strings.HasSuffix(id, ".GetMounts") || strings.HasSuffix(id, ".Mounted"))
+	})
+	var found []edge
+	for _, l := range loads {
+		if v := resultN(l, 1); v != nil {
+			found = append(found, boolEdges(f, v, true)...)
+		}
+	}
+	mounts := callsIn(f, func(_ string, ci ssa.CallInstruction) bool { return ci.Common().IsInvoke() && ci.Common().Method.Name() == "Mount" })
+	good := len(found) > 0
+	detail := ""
+	for _, e := range found {
+		first := f.Blocks[e.from].Succs[e.succ].Instrs[0]
+		// a nil-error return reachable from the found edge without a mount-table lookup and without mounting
+		tgt := func(i ssa.Instruction) bool {
+			r, ok := i.(*ssa.Return)
+			return ok && returnsNilError(r)
+		}
+		k := newCuts().addCalls(tables).addCalls(mounts)
+		if tgt(first) {
+			good = false
+		} else if hit, path := reach(f, first, tgt, k); hit != nil {
+			good = false
+			detail = c.pathStr(f, path)
+		}
+	}
+	c.verdict(c.fnKey(f)+":known-mount-is-live", loads[0].Pos(), good, "success for a known mountpoint only after the mount table was consulted (or the mount was redone)", "a Mount request for a mountpoint present in fsMap succeeds without looking at the mount table: after Init restored the mountpoint from a stale store and the restoring snapshotter force-unmounted it, nothing is mounted although record and table say so: "+detail)
+}
+
+// clauseParsedPrefetchSizeAdopted: every prefetch-size label value that parses is used (0 included).
+func clauseParsedPrefetchSizeAdopted(c *Ctx, id string) {
+	c.clause(id, "T1", "filesystem.Mount adopts the prefetch-size label whenever it parses: the assignment sits directly on the success edge of ParseInt, with no further condition on the value", 1)
+	f := c.mustFn("fs", "(*filesystem).Mount")
+	if f == nil {
+		return
+	}
+	n := 0
+	for _, pc := range callsIn(f, idIs("strconv.ParseInt", "strconv.Atoi", "strconv.ParseUint")) {
+		// the one parsing the prefetch-size label
+		isPS := false
+		for _, v := range append([]ssa.Value{pc.Common().Args[0]}, reachingVals(pc.Common().Args[0])...) {
+			v = stripConv(v)
+			if ex, ok := v.(*ssa.Extract); ok {
+				v = ex.Tuple
+			}
+			if lk, ok := v.(*ssa.Lookup); ok {
+				if s, ok := constString(lk.Index); ok && s == c.constVal("fs/config", "TargetPrefetchSizeLabel") {
+					isPS = true
+				}
+			}
+		}
+		if !isPS {
+			continue
+		}
+		n++
+		val := resultN(pc, 0)
+		good := false
+		for _, e := range successEdges(f, pc) {
+			tgt := f.Blocks[e.from].Succs[e.succ]
+			for _, ins := range tgt.Instrs {
+				if st, ok := ins.(*ssa.Store); ok && val != nil && flowsFrom(stripConv(st.Val), val, 0) {
+					good = true
+				}
+			}
+			// SSA-lifted variable: the value flows into a phi of the join block directly from the target block
+			for _, s := range tgt.Succs {
+				for _, ins := range s.Instrs {
+					if ph, ok := ins.(*ssa.Phi); ok {
+						for pi, p := range s.Preds {
+							if p == tgt && val != nil && flowsFrom(stripConv(ph.Edges[pi]), val, 0) && len(tgt.Succs) == 1 {
+								good = true
+							}
+						}
+					}
+				}
+			}
+		}
+		c.verdict(c.fnKey(f)+":prefetch-size-adopted", pc.Pos(), good, "the parsed value is adopted unconditionally", "a prefetch-size label that parses is adopted only under an extra condition on its value (e.g. > 0): the size written at pull time does not round-trip and the snapshotter-wide default is used instead")
+	}
+	if n == 0 {
+		c.bad(c.fnKey(f)+":prefetch-size-label", f.Pos(), "the prefetch-size label is no longer read at mount time")
+	}
+}
+
+// clauseLoopGoroutinesOwnTheirVars: a goroutine started in a loop reads only variables of its own iteration.
+func clauseLoopGoroutinesOwnTheirVars(c *Ctx, id string, fns [][2]string) {
+	c.clause(id, "T8", "goroutines started per layer in a loop capture only variables created by their own iteration (a variable declared outside the loop and reassigned per iteration would be read by the wrong layer's goroutine)", len(fns))
+	for _, x := range fns {
+		f := c.mustFn(x[0], x[1])
+		if f == nil {
+			continue
+		}
+		good := true
+		detail := ""
+		n := 0
+		eachInstr(f, func(i ssa.Instruction) {
+			mc, ok := i.(*ssa.MakeClosure)
+			if !ok {
+				return
+			}
+			// started concurrently: passed to `go`, errgroup.Go, WaitGroup.Go
+			conc := false
+			for _, r := range *mc.Referrers() {
+				switch y := r.(type) {
+				case *ssa.Go:
+					conc = true
+				case ssa.CallInstruction:
+					id := calleeID(y)
+					if strings.HasSuffix(id, "errgroup.(*Group).Go") || id == "sync.(*WaitGroup).Go" {
+						conc = true
+					}
+				}
+			}
+			if !conc {
+				return
+			}
+			// inside a loop: the closure's block can reach itself
+			if hit, _ := reach(f, mc, isInstr(mc), nil); hit == nil {
+				return
+			}
+			n++
+			for _, b := range mc.Bindings {
+				al, ok := b.(*ssa.Alloc)
+				if !ok {
+					continue
+				}
+				// created per iteration: the allocation is re-executed on the way round the loop
+				if hit, _ := reach(f, mc, isInstr(al), nil); hit != nil {
+					continue
+				}
+				// allocated once outside: any store that can execute after the goroutine was started is a race with it
+				for _, r := range *al.Referrers() {
+					if st, ok := r.(*ssa.Store); ok && st.Addr == ssa.Value(al) {
+						if hit, _ := reach(f, mc, isInstr(st), nil); hit != nil {
+							good = false
+							detail = al.Comment + " at " + c.pos(st.Pos())
+						}
+					}
+				}
+			}
+		})
+		c.verdict(c.fnKey(f)+":per-iteration-captures", f.Pos(), good, fmt.Sprintf("%d concurrent closures in loops capture per-iteration variables only", n), "a goroutine started in the loop captures a variable that a later iteration overwrites ("+detail+"): the check of one layer can run with another layer's id and labels")
+	}
+}
+
+// clauseCleanNameViaPathClean: every name normaliser returns path.Clean's result on all paths (no shortcut that skips it).
+func clauseCleanNameViaPathClean(c *Ctx, id string) {
+	c.clause(id, "T9", "every cleanEntryName returns a value computed from path.Clean on all paths (the builder, the memory store and the bolt store agree on one normal form)", 2)
+	n := 0
+	for _, pk := range []string{"estargz", "cmd/containerd-stargz-grpc/db", "metadata/memory"} {
+		f := c.fn(pk, "cleanEntryName")
+		if f == nil {
+			continue
+		}
+		n++
+		good := true
+		for _, r := range realReturns(f) {
+			for _, v := range retVals(r, 0) {
+				if !derivesFromCall(v, "path.Clean", 0) {
+					good = false
+				}
+			}
+		}
+		c.verdict(c.fnKey(f)+":via-path.Clean", f.Pos(), good, "all returns go through path.Clean", "a return of cleanEntryName bypasses path.Clean (a fast path for names that look clean): names such as usr//bin/app are no longer normalised, so a prioritized or hardlinked path does not match its entry")
+	}
+	if n == 0 {
+		c.bad("cleanEntryName", token.NoPos, "no name normaliser found")
+	}
+}
+
+func derivesFromCall(v ssa.Value, callee string, depth int) bool {
+	v = stripConv(v)
+	if depth > 6 {
+		return false
+	}
+	switch x := v.(type) {
+	case *ssa.Call:
+		if calleeID(x) == callee {
+			return true
+		}
+		for _, a := range x.Call.Args {
+			if derivesFromCall(a, callee, depth+1) {
+				return true
+			}
+		}
+	case *ssa.Phi:
+		for _, e := range x.Edges {
+			if !derivesFromCall(e, callee, depth+1) {
+				return false
+			}
+		}
+		return len(x.Edges) > 0
+	case *ssa.Slice:
+		return derivesFromCall(x.X, callee, depth+1)
+	case *ssa.Extract:
+		return derivesFromCall(x.Tuple, callee, depth+1)
+	}
+	return false
+}
+
+// clauseStreamStartRefreshed: inside appendTar's chunk loop, every path that closes the compression stream assigns the
+// remembered stream start (and its uncompressed base) anew before the next chunk looks at them.
+func clauseStreamStartRefreshed(c *Ctx, id string) {
+	c.clause(id, "T2", "appendTar: on every path of the chunk loop that closes the compression stream the remembered stream start and uncompressed base are assigned anew (a branch that closes the stream but keeps the old values records later chunks at the previous stream's offset)", 2)
+	f := c.mustFn("estargz", "(*Writer).appendTar")
+	if f == nil {
+		return
+	}
+	closes := callsIn(f, idIs("estargz.(*Writer).closeGz"))
+	for _, name := range []string{"prevOffset", "prevOffsetUncompressed"} {
+		var hdr *ssa.Phi
+		eachInstr(f, func(i ssa.Instruction) {
+			if ph, ok := i.(*ssa.Phi); ok && ph.Comment == name {
+				// the loop header phi: one of its edges comes from a block it dominates
+				for _, p := range ph.Block().Preds {
+					if ph.Block().Dominates(p) {
+						hdr = ph
+					}
+				}
+			}
+		})
+		if hdr == nil {
+			c.unk(c.fnKey(f)+":"+name+"-refreshed", f.Pos(), "loop-carried variable "+name+" not found")
+			continue
+		}
+		carry := map[ssa.Value]bool{ssa.Value(hdr): true}
+		changed := true
+		for changed {
+			changed = false
+			eachInstr(f, func(i ssa.Instruction) {
+				if ph, ok := i.(*ssa.Phi); ok && !carry[ph] {
+					for _, e := range ph.Edges {
+						if carry[stripConv(e)] {
+							carry[ph] = true
+							changed = true
+						}
+					}
+				}
+			})
+		}
+		good := true
+		detail := ""
+		// an iteration ends at any loop header that carries the variable (chunk loop and entry loop)
+		iterEnd := newCuts()
+		for q := range carry {
+			ph := q.(*ssa.Phi)
+			for _, p := range ph.Block().Preds {
+				if ph.Block().Dominates(p) {
+					iterEnd.addInstr(ph.Block().Instrs[0])
+				}
+			}
+		}
+		for q := range carry {
+			ph := q.(*ssa.Phi)
+			for ei, e := range ph.Edges {
+				if !carry[stripConv(e)] {
+					continue // a new value arrives on this edge
+				}
+				if isHdr := func() bool {
+					for _, p := range ph.Block().Preds {
+						if ph.Block().Dominates(p) {
+							return true
+						}
+					}
+					return false
+				}(); isHdr {
+					continue // loop-carried edges are judged where the value is merged inside the body
+				}
+				pred := ph.Block().Preds[ei]
+				last := pred.Instrs[len(pred.Instrs)-1]
+				// the old value is kept on this edge: no closeGz of the same iteration may precede it
+				for _, cl := range closes {
+					if !hdr.Block().Dominates(cl.Block()) {
+						continue // the close at function entry
+					}
+					for _, se := range successEdges(f, cl) {
+						tgt := f.Blocks[se.from].Succs[se.succ]
+						if tgt == pred {
+							good = false
+							detail = c.pos(cl.Pos())
+							continue
+						}
+						if hit, _ := reach(f, tgt.Instrs[0], isInstr(last), iterEnd); hit != nil || tgt.Instrs[0] == last {
+							// unless a new value was assigned between: then the edge would not carry the old value; it does
+							good = false
+							detail = c.pos(cl.Pos())
+						}
+					}
+				}
+			}
+		}
+		c.verdict(c.fnKey(f)+":"+name+"-refreshed", hdr.Pos(), good, "no path closes the stream and keeps the old "+name, "a path of the chunk loop closes the compression stream (closeGz at "+detail+") but carries the old "+name+" into the next chunk: chunks after a landmark are recorded at the previous stream's offset, i.e. before the landmark")
+	}
+}
+
+// clauseBlobKeyStable: blob-cache keys are derived from the stable blob URL (not from the redirected, expiring URL), so
+// that what prefetch stored stays addressable after a URL refresh.
+func clauseBlobKeyStable(c *Ctx, id string) {
+	const rp = "fs/remote"
+	c.clause(id, "T9", "the blob-cache key hashes the registry blob URL, begin and end, and nothing that changes when the redirected URL is refreshed", 1)
+	f := c.mustFn(rp, "(*httpFetcher).genID")
+	if f == nil {
+		return
+	}
+	src := map[string]bool{}
+	for _, ci := range callsIn(f, idIs("fmt.Appendf", "fmt.Sprintf")) {
+		for _, a := range varargs(ci.Common().Args[len(ci.Common().Args)-1]) {
+			fieldsRead(a, rp+".region", 0, src)
+			fieldsRead(a, rp+".httpFetcher", 0, src)
+		}
+	}
+	volatile := src["url"] || src["header"]
+	c.verdict(c.fnKey(f)+":stable-key", f.Pos(), src["b"] && src["e"] && src["blobURL"] && !volatile, "key = hash(blobURL, begin, end)", fmt.Sprintf("the cache key is derived from %v: after the signed URL is refreshed everything fetched before (prefetch) is keyed by the old URL and reads go back to the registry", sortedKeys(src)))
 }
